@@ -31,7 +31,9 @@
 (*   OfflineSigSkipped  offline: Deserialization does not read the         *)
 (*              ProposerSig that Serialization writes, so no written       *)
 (*              OfflineWitnessMsg is ever accepted                         *)
-(* DecodePayload / ReadMessage use the constants (TRUE = code as found);   *)
+(*   Both are FIXED in the repository (commits cdc6b150, 7f655a9a): FALSE  *)
+(*   in the main configs, TRUE only in the negative controls.              *)
+(* DecodePayload / ReadMessage use the constants (TRUE = the old code);    *)
 (* DesignPayload / the dres field give the verdict with both switched off. *)
 (***************************************************************************)
 EXTENDS Integers, Sequences, FiniteSets, TLC
